@@ -309,26 +309,37 @@ def run_stage(st, prop, tier, seed, out, replay=None):
             for k, v in r.lines:
                 if k == "INFO":
                     out.extra.setdefault("info", []).append(v)
-        r = run_tlc(st.gen[0], st.gen[1], env=env, workers=st.gen_workers, seed=seed,
-                    simulate=st.simulate, timeout=st.gen_timeout, tag=f"{prop}.gen")
-        out.states += r.distinct
-        out.transitions += r.generated
-        n = 0
-        with open(cases_path, "w") as f:
-            for k, v in r.lines:
-                if k == "CASE":
-                    n += 1
-                    v["cid"] = n
-                    f.write(json.dumps(v, separators=(",", ":")) + "\n")
-        if n == 0:
-            raise ToolError(f"generator {st.gen[0]} produced no cases:\n{r.raw_tail}")
-        out.stage_info.append({"generator": st.gen[0], "stage": st.name, "cases": n,
-                               "distinct_states": r.distinct, "wall_s": round(r.wall, 1)})
-        out.cases += n
+        if st.gen is None:
+            # no generated cases: the executor records calls of a workload it runs itself (the repository's own tests)
+            open(cases_path, "w").close()
+            st.executor(cases_path, trace_path)
+            r = None
+        else:
+            r = run_tlc(st.gen[0], st.gen[1], env=env, workers=st.gen_workers, seed=seed,
+                        simulate=st.simulate, timeout=st.gen_timeout, tag=f"{prop}.gen")
+        if r is not None:
+            out.states += r.distinct
+            out.transitions += r.generated
+            n = 0
+            with open(cases_path, "w") as f:
+                for k, v in r.lines:
+                    if k == "CASE":
+                        n += 1
+                        v["cid"] = n
+                        f.write(json.dumps(v, separators=(",", ":")) + "\n")
+            if n == 0:
+                raise ToolError(f"generator {st.gen[0]} produced no cases:\n{r.raw_tail}")
+            out.stage_info.append({"generator": st.gen[0], "stage": st.name, "cases": n,
+                                   "distinct_states": r.distinct, "wall_s": round(r.wall, 1)})
+            out.cases += n
+        else:
+            out.stage_info.append({"stage": st.name, "recorded_workload": "repository test-suite with hooks"})
     else:
         shutil.copy(replay, cases_path)
         out.cases += sum(1 for _ in open(cases_path))
-    if st.executor is not None:
+    if st.gen is None:
+        pass                                  # trace already recorded above
+    elif st.executor is not None:
         st.executor(cases_path, trace_path)
     else:
         run_harness(cases_path, trace_path, binary=st.harness_bin, env=st.harness_env)
